@@ -20,7 +20,7 @@ from .. import c15gen as G
 from .. import hast as H
 from ..common import Check, lean_gate, ROOT, REPO, rng, model_batch_parallel, model_batch
 from ..findings import attribute
-from ..attrib_c15 import moments_agree, needed_reruns, rerun_task, choice_literal_sums
+from ..attrib_c15 import moments_agree, choice_literal_sums
 from ..pool import run_tasks
 from ..theorems import THEOREMS as _T
 
@@ -477,11 +477,8 @@ def process(chk, cases, timeout):
             reqs = law_requests(c, coder, model)
         except ValueError as e:
             reqs = None
-            if set(coder.get("names", {}).values()) & G.RESERVED_SANITISED:
-                chk.count("generated-text-unreadable:reserved-word-as-name")
-            else:
-                chk.count("generated-text-unreadable")
-                chk.obligation(f"reader:{c['id']}", False, str(e)[:300])
+            chk.count("generated-text-unreadable")
+            chk.obligation(f"reader:{c['id']}", False, str(e)[:300])
         if reqs:
             law_jobs.append((ci, reqs))
     # ---- stage 2: law of the generated program ------------------------------------------------------
@@ -560,12 +557,6 @@ def _law_search(chk, c, ans):
 
 def account_queries(chk, recs):
     stat = {}
-    # re-runs with in-memory repairs that the attribution functions will ask for, in one batch
-    jobs = [(r, rep) for r in recs for rep in needed_reruns(r)]
-    if jobs:
-        out = run_tasks([rerun_task(r, rep) for r, rep in jobs], timeout=recs[0].get("timeout", 120))
-        for (r, rep), o in zip(jobs, out):
-            r["rerun:" + "+".join(rep)] = o
     for r in recs:
         chk.evaluations += 1
         key = f"query:{r['stream']}:{r['kind']}:{r['status']}"
@@ -599,7 +590,7 @@ def account_queries(chk, recs):
 
 
 def _slim_rec(r):
-    return {k: v for k, v in r.items() if not k.startswith("rerun:")}
+    return dict(r)
 
 
 def build_cases(tier):
